@@ -127,3 +127,45 @@ def r4(ctx):
         if match(src, ('arg', 2, ANY)) and not [n_ for n_ in names if n_ in ('rev', 'sorted', 'skip', 'step_by', 'filter', 'take')]:
             good = True
     ctx.require(good, b, 'id-order', 'ids are visited in the given order (plain iteration over token_ids)', None)
+
+
+@rule('C02', 'R-C02-5', 'T15 TYPE (no narrowing of positions)',
+      'positions and ids inside merge_bytes are never narrowed: no integer cast to a smaller type on a usize/u32 value '
+      '(a wrapped position would alias another token of a long word)')
+def r5(ctx):
+    from rules.common import narrowing_casts, closures_in
+    body = bpe_body(ctx, 'tokenization::BaseTokenizer::merge_bytes')
+    bodies = [body] + closures_in(ctx, body)
+    n = 0
+    for b in bodies:
+        for s, f, t in narrowing_casts(b):
+            if s.span['exp']:
+                continue
+            n += 1
+            ctx.fail(b, 'narrowing|%s->%s' % (f, t), 'value %s is narrowed from %s to %s at line %d' % (
+                show_in(b, sym(b, s.rv.ops[0])), f, t, s.span['line']), s.span)
+    hty = [l['ty'] for l in body.locals if l['ty'].startswith('std::collections::BinaryHeap<')]
+    good = bool(hty) and 'std::cmp::Reverse<usize>, usize,' in hty[0]
+    ctx.require(good, body, 'heap-position-type', 'heap entries store both positions as usize', 'heap entry type is %s' % hty)
+    if n == 0:
+        ctx.ok(body, 'no narrowing integer cast in merge_bytes and its %d closures' % (len(bodies) - 1))
+    # emitted ids: single drain (shared with C03)
+    ext = [t for t in body.terms('call') if t.args and t.args[0].place is not None and
+           body.local_ty(t.args[0].place.local).startswith('&mut std::vec::Vec<u32>')]
+    rv = ret_values(body)
+    res = nosite(rv[0][0]) if len(rv) == 1 else None
+    wr = [t for t in ext if nosite(sym(body, t.args[0])) == res]
+    ctx.require(len(wr) == 1 and (wr[0].callee_res() or '').endswith('Extend>::extend'), body, 'single-emitter',
+                'the result vector is written once per word, by the drain of the id vector',
+                'the result vector is written by %s' % [(w.callee_res(), w.span['line']) for w in wr])
+    # no state outside the tokenizer and the call: statics / thread locals are not consulted
+    tls = []
+    for b in bodies:
+        for s in b.stmts():
+            if s.kind == 'assign' and s.rv.kind == 'tls':
+                tls.append((b, s))
+        for t in b.calls(r'LocalKey.*::with|LocalKey.*::with_borrow|thread::local'):
+            tls.append((b, t))
+    ctx.require(not tls, body, 'no-ambient-state', 'merge_bytes consults no thread-local / static mutable state',
+                'merge_bytes uses thread-local state at line %d: results of one tokenizer leak into another' % (
+                    tls[0][1].span['line'] if tls else 0))
